@@ -343,8 +343,12 @@ func (s *Sim) Run(spec *RunSpec) *RunResult {
 	clearPendingT()
 	s.res.Background = len(s.tasks) - ncallers
 	s.initPolicy()
+	// a caller's goroutine is created when the scheduler first runs it, not at
+	// run start: request goroutines come into being while other requests are
+	// in flight (goroutine ids, stacks freed by a growing stack and handed to the
+	// next new goroutine)
 	for _, t := range s.tasks[:ncallers] {
-		go taskMain(t)
+		t.unborn = true
 	}
 
 	bound := 1000*spec.Est + 1000000
@@ -547,6 +551,10 @@ func (s *Sim) resumeTask(t *Task, budget int64) {
 	rep := t.pend
 	t.pend = reply{}
 	rep.budget = budget
+	if t.unborn {
+		t.unborn = false
+		go taskMain(t)
+	}
 	setCur(t)
 	t.resume <- rep
 	req := <-toSched
